@@ -12,6 +12,7 @@ checks = sys.argv[2:] or [meta["property"]]
 wt = tempfile.mkdtemp(prefix="try_", dir="/tmp")
 os.rmdir(wt)
 subprocess.run(["git", "-C", "/repo", "worktree", "add", "--detach", wt, "HEAD", "-q"], check=True)
+shutil.copy("/repo/pymablock/_version.py", os.path.join(wt, "pymablock", "_version.py"))  # git-ignored, generated
 res = {"seed": os.path.basename(seed), "property": meta["property"], "summary": meta.get("summary")}
 try:
     env = dict(os.environ, PYTHONPATH=wt, PYTHONHASHSEED="0")
